@@ -11,7 +11,7 @@
         for histograms (so "count, sum and per-bucket counts" are the components);
       - a history is a list of [op]; [Collect who script failing] is one collection point at
         which both readers (who = 0), only the delta reader (1) or only the cumulative reader (2)
-        collect; [failing] lists the callbacks that return an error in this
+        collect; who = 3, 4, 5: the same with a context that is already cancelled; [failing] lists the callbacks that return an error in this
         cycle (after making their observations); [script] lists what each callback would observe
         if it were invoked in that cycle (callback id, instrument, attribute set, value),
         in the callback's own order;
@@ -46,7 +46,11 @@ Inductive op :=
 
 (** does a collection point involve the delta reader ([dl = true]) / the cumulative reader *)
 Definition includes (who : N) (dl : bool) : bool :=
-  match who with 0%N => true | 1%N => dl | _ => negb dl end.
+  if (who mod 3 =? 0)%N then true else if (who mod 3 =? 1)%N then dl else negb dl.
+(** the Collect call is made with a context that is already cancelled *)
+Definition cancelled (who : N) : bool := (3 <=? who)%N.
+(** the reader takes part and the collection goes through *)
+Definition collects_ok (who : N) (dl : bool) : bool := includes who dl && negb (cancelled who).
 
 (** ** Input side: which recorded values belong to which cycle (of which reader) *)
 
@@ -69,12 +73,25 @@ Definition delivered (rs : list reg) (script : list attempt) (i : inst) : list (
                        (filter (fun a => (at_cb a =? fst r)%N && Nat.eqb (at_inst a) i) script)
               else []) rs.
 
-(** synchronous instrument [i]: the measurements between two collections *)
+(** pipeline.produce looks at the context only between callbacks: with no callback registered a
+    Collect with a cancelled context is an ordinary, successful Collect.  [normalize] rewrites those
+    (the registrations are the same for every reader); in a normalized history a cancelled
+    collection always has at least one callback registered: it returns the context's error and no
+    data, and must not consume anything. *)
+Fixpoint normalize (h : list op) (rs : list reg) : list op :=
+  match h with
+  | [] => []
+  | Collect w s f :: r =>
+      Collect (match rs with [] => (w mod 3)%N | _ => w end) s f :: normalize r rs
+  | o :: r => o :: normalize r (reg_step rs o)
+  end.
+
+(** synchronous instrument [i]: the measurements between two successful collections *)
 Fixpoint cycles_sync (dl : bool) (i : inst) (h : list op) (cur : list (skey * Z)) : list (list (skey * Z)) :=
   match h with
   | [] => []
   | Measure i' k v :: r => cycles_sync dl i r (if Nat.eqb i' i then cur ++ [(k, v)] else cur)
-  | Collect w _ _ :: r => if includes w dl then cur :: cycles_sync dl i r [] else cycles_sync dl i r cur
+  | Collect w _ _ :: r => if collects_ok w dl then cur :: cycles_sync dl i r [] else cycles_sync dl i r cur
   | _ :: r => cycles_sync dl i r cur
   end.
 
@@ -82,9 +99,27 @@ Fixpoint cycles_sync (dl : bool) (i : inst) (h : list op) (cur : list (skey * Z)
 Fixpoint cycles_async (dl : bool) (i : inst) (h : list op) (rs : list reg) : list (list (skey * Z)) :=
   match h with
   | [] => []
-  | Collect w s _ :: r => if includes w dl then delivered rs s i :: cycles_async dl i r rs else cycles_async dl i r rs
+  | Collect w s _ :: r => if collects_ok w dl then delivered rs s i :: cycles_async dl i r rs else cycles_async dl i r rs
   | o :: r => cycles_async dl i r (reg_step rs o)
   end.
+
+(** What the code does today (finding F-C08-1): a collection with a cancelled context runs the FIRST
+    registered callback before it notices, and what that callback observed stays in the aggregators
+    of this reader and is counted into its next successful cycle.  [carry] = those leftovers. *)
+Fixpoint cycles_async_leaky (dl : bool) (i : inst) (h : list op) (rs : list reg) (carry : list (skey * Z))
+  : list (list (skey * Z)) :=
+  match h with
+  | [] => []
+  | Collect w s _ :: r =>
+      if includes w dl
+      then if cancelled w then cycles_async_leaky dl i r rs (carry ++ delivered (firstn 1 rs) s i)
+           else (carry ++ delivered rs s i) :: cycles_async_leaky dl i r rs []
+      else cycles_async_leaky dl i r rs carry
+  | o :: r => cycles_async_leaky dl i r (reg_step rs o) carry
+  end.
+(** no collection of this reader is made with a cancelled context (while callbacks are registered) *)
+Definition calm (dl : bool) (h : list op) : bool :=
+  forallb (fun o => match o with Collect w _ _ => negb (includes w dl && cancelled w) | _ => true end) h.
 
 (** does Collect report an error in a cycle: exactly when a registered callback failed.  The
     observations of that cycle - those of the failing callback included - are reported all the
@@ -95,7 +130,7 @@ Definition cycle_err (rs : list reg) (failing : list cbid) : bool :=
 Fixpoint errs_of (dl : bool) (h : list op) (rs : list reg) : list bool :=
   match h with
   | [] => []
-  | Collect w _ f :: r => if includes w dl then cycle_err rs f :: errs_of dl r rs else errs_of dl r rs
+  | Collect w _ f :: r => if includes w dl then (cancelled w || cycle_err rs f) :: errs_of dl r rs else errs_of dl r rs
   | o :: r => errs_of dl r (reg_step rs o)
   end.
 
@@ -105,11 +140,10 @@ Fixpoint sync_points (h : list op) (nd nc : nat) : list (nat * nat) :=
   match h with
   | [] => []
   | Collect w _ _ :: r =>
-      match w with
-      | 0%N => (nd, nc) :: sync_points r (S nd) (S nc)
-      | 1%N => sync_points r (S nd) nc
-      | _ => sync_points r nd (S nc)
-      end
+      if (w =? 0)%N then (nd, nc) :: sync_points r (S nd) (S nc)
+      else if (w =? 1)%N then sync_points r (S nd) nc
+      else if (w =? 2)%N then sync_points r nd (S nc)
+      else sync_points r nd nc
   | _ :: r => sync_points r nd nc
   end.
 
@@ -290,7 +324,9 @@ Definition start_le_time_obs (tr : list sobs) : bool :=
 (** the four kinds of stream the property distinguishes *)
 Inductive sclass := CSyncAdd | CSyncGauge | CAsyncSum | CAsyncGauge.
 
-Definition stream_ok (cl : sclass) (i : inst) (h : list op) (dtr ctr : list sobs) : bool :=
+Definition stream_ok (leaky : bool) (cl : sclass) (i : inst) (h0 : list op) (dtr ctr : list sobs) : bool :=
+  let h := normalize h0 [] in
+  let cyca := fun dl => if leaky then cycles_async_leaky dl i h [] [] else cycles_async dl i h [] in
   let dp := map s_points dtr in
   let cp := map s_points ctr in
   adjacent_obs None 0%N dtr && fixed_obs None 0%N ctr &&
@@ -299,8 +335,8 @@ Definition stream_ok (cl : sclass) (i : inst) (h : list op) (dtr ctr : list sobs
   match cl with
   | CSyncAdd => running_deltab (sync_points h 0 0) dp cp
   | CSyncGauge => gauge_cycleb (cycles_sync true i h []) dp && gauge_sofarb [] (cycles_sync false i h []) cp
-  | CAsyncSum => async_deltab [] (cycles_async true i h []) dp && async_cumb (cycles_async false i h []) cp
-  | CAsyncGauge => gauge_cycleb (cycles_async true i h []) dp && gauge_cycleb (cycles_async false i h []) cp
+  | CAsyncSum => async_deltab [] (cyca true) dp && async_cumb (cyca false) cp
+  | CAsyncGauge => gauge_cycleb (cyca true) dp && gauge_cycleb (cyca false) cp
   end.
 
 (** ** Base-2 exponential histograms that rescale (small MaxSize): scale-independent clauses
